@@ -31,8 +31,12 @@ pub enum FileSpec {
 #[derive(Clone, Debug, PartialEq, Serialize, Deserialize)]
 pub enum Damage {
     Truncate(usize),
-    /// kind: 0 zeros, 1 pseudo-random bytes, 2 copy of the last bytes, 3 head of another valid file
+    /// kind: 0 zeros, 1 pseudo-random bytes, 2 copy of the last bytes, 3 head of another valid file,
+    /// 4 ASCII whitespace (newlines, spaces, CR LF, tabs)
     Extend { kind: u8, n: usize },
+    /// the declared shape of an npy file is rewritten (values untouched): kind 0 axis+1, 1 axis-1,
+    /// 2 extra axis of length 2, 3 product overflows usize
+    NpyShapeEdit { kind: u8, axis: usize },
     /// remove value token i
     TextDrop(usize),
     /// duplicate value token i
@@ -117,7 +121,9 @@ pub fn all_damages(file: &FileSpec, img: &[u8]) -> Vec<Damage> {
         for axis in 0..shape.len() {
             v.push(Damage::ShapeEdit { kind: 0, axis });
             v.push(Damage::ShapeEdit { kind: 1, axis });
+            v.push(Damage::ShapeEdit { kind: 4, axis });
         }
+        v.push(Damage::ShapeEdit { kind: 5, axis: 0 });
         v.push(Damage::ShapeEdit { kind: 2, axis: 0 });
         v.push(Damage::ShapeEdit { kind: 3, axis: 0 });
         for kind in 0..4u8 {
@@ -130,9 +136,16 @@ pub fn all_damages(file: &FileSpec, img: &[u8]) -> Vec<Damage> {
         for k in 0..img.len() {
             v.push(Damage::Truncate(k));
         }
-        for kind in 0..4u8 {
+        for kind in 0..5u8 {
             for n in 1..=16 {
                 v.push(Damage::Extend { kind, n });
+            }
+        }
+        if let FileSpec::Npy(s) = file {
+            for axis in 0..s.shape.len() {
+                for kind in 0..4u8 {
+                    v.push(Damage::NpyShapeEdit { kind, axis });
+                }
             }
         }
     }
@@ -162,9 +175,43 @@ pub fn apply(file: &FileSpec, img: &[u8], d: &Damage) -> Option<Vec<u8>> {
                     let tail: Vec<u8> = img[img.len().saturating_sub(*n)..].to_vec();
                     v.extend(tail.iter().cycle().take(*n));
                 }
-                _ => v.extend(img.iter().cycle().take(*n)),
+                3 => v.extend(img.iter().cycle().take(*n)),
+                _ => {
+                    let pat: &[u8] = [&b"\n"[..], &b" "[..], &b"\r\n"[..], &b"\t"[..], &b" \n"[..]][*n % 5];
+                    v.extend(pat.iter().cycle().take(*n));
+                }
             }
             Some(v)
+        }
+        Damage::NpyShapeEdit { kind, axis } => {
+            let FileSpec::Npy(s) = file else { return None };
+            let mut t = s.clone();
+            match kind {
+                0 => *t.shape.get_mut(*axis)? += 1,
+                1 => {
+                    let a = t.shape.get_mut(*axis)?;
+                    if *a <= 1 {
+                        return None;
+                    }
+                    *a -= 1;
+                }
+                2 => t.shape.push(2),
+                _ => {
+                    // product >= 2^64 although every trailing product still fits
+                    if t.shape.len() < 2 {
+                        t.shape.push(2);
+                    }
+                    let a = (*axis).min(t.shape.len() - 1);
+                    for (i, x) in t.shape.iter_mut().enumerate() {
+                        *x = if i == a { 1 << 63 } else { (*x).max(2) };
+                    }
+                }
+            }
+            let n: Option<u128> = t.shape.iter().try_fold(1u128, |acc, &x| acc.checked_mul(x as u128));
+            if n == Some(s.raw.len() as u128) {
+                return None;
+            }
+            Some(gen::npy_image(&t))
         }
         Damage::TextAppend { kind } => {
             let text = std::str::from_utf8(img).ok()?;
@@ -237,17 +284,32 @@ pub fn apply(file: &FileSpec, img: &[u8], d: &Damage) -> Option<Vec<u8>> {
                         *a -= 1;
                     }
                     2 => shape.push(2),
-                    _ => {
+                    3 => {
                         if shape.len() < 2 {
                             return None;
                         }
                         shape.pop();
                     }
+                    _ => {
+                        // the product of the declared shape overflows usize (it certainly differs
+                        // from the number of values); kind 4: 2^63 x 2.., kind 5: 2^32 x 2^32 ..
+                        if shape.len() < 2 {
+                            shape.push(2);
+                        }
+                        let a = (*axis).min(shape.len() - 1);
+                        for (i, x) in shape.iter_mut().enumerate() {
+                            *x = if *kind == 4 {
+                                if i == a { 1usize << 63 } else { (*x).max(2) }
+                            } else {
+                                1usize << 32
+                            };
+                        }
+                    }
                 },
                 _ => unreachable!(),
             }
-            let product: usize = shape.iter().product();
-            if product == tokens.len() {
+            let product: Option<u128> = shape.iter().try_fold(1u128, |acc, &x| acc.checked_mul(x as u128));
+            if product == Some(tokens.len() as u128) {
                 return None; // still a valid file: the oracle does not apply
             }
             let _ = header;
@@ -298,12 +360,13 @@ pub fn damage_class(file: &FileSpec, img: &[u8], d: &Damage) -> String {
         Damage::Truncate(k) => format!("truncate@{}", offset_class(file, img, *k)),
         Damage::Extend { kind, n } => format!(
             "extend/{}/{}",
-            ["zeros", "random", "tail_copy", "head_of_valid_file"][*kind as usize % 4],
+            ["zeros", "random", "tail_copy", "head_of_valid_file", "ascii_whitespace"][*kind as usize % 5],
             if *n % 8 == 0 { "multiple_of_8" } else { "odd_len" }
         ),
         Damage::TextDrop(_) => "text_drop_token".into(),
         Damage::TextInsert(_) => "text_insert_token".into(),
         Damage::ShapeEdit { kind, .. } => format!("text_shape_edit_{kind}"),
+        Damage::NpyShapeEdit { kind, .. } => format!("npy_shape_edit_{}", ["axis_plus_one", "axis_minus_one", "extra_axis", "overflowing_product"][*kind as usize % 4]),
         Damage::TextAppend { kind } => format!("text_append_{}", ["duplicate_value_line", "extra_line", "concatenated_file", "unterminated_extra_value"][*kind as usize % 4]),
         Damage::TextTruncate(_) => "text_truncate".into(),
     }
@@ -348,7 +411,7 @@ impl Prop for C16 {
     }
     fn n_cases(&self, tier: Tier) -> u64 {
         match tier {
-            Tier::Quick => 6000,
+            Tier::Quick => 4000,
             Tier::Thorough => 60000,
         }
     }
@@ -357,6 +420,30 @@ impl Prop for C16 {
         let mut rng = Rng::new(seed);
         let thorough = tier == Tier::Thorough;
         let (max_axes, max_len, max_elems) = if thorough && rng.chance(1, 6) { (6, 9, 480) } else { (5, 6, 64) };
+        if idx % 10 != 9 && rng.chance(1, 60) {
+            // a large file (>= 1,024 values of 8 bytes): readers may take different paths for
+            // large buffers
+            let n = rng.range(1024, 1300);
+            let shape = if rng.chance(1, 2) { vec![n] } else { vec![2, n / 2] };
+            let cnt: usize = shape.iter().product();
+            let file = if rng.chance(1, 2) {
+                FileSpec::Npy(NpySpec {
+                    version: *rng.pick(&[1u8, 2, 3]),
+                    endian: '<',
+                    dtype: "f8".into(),
+                    shape,
+                    spelling: rng.below(12) as u8,
+                    raw: (0..cnt).map(|i| (i % 97) as i64).collect(),
+                })
+            } else {
+                FileSpec::NpyWritten(Spec::from_vals(shape, &(0..cnt).map(|i| (i % 89) as f64 * 0.25).collect::<Vec<_>>()))
+            };
+            return Case::L1 {
+                file,
+                damages: Damages::All,
+                via_file: rng.chance(1, 2),
+            };
+        }
         let file = match rng.below(10) {
             0..=3 => FileSpec::Npy(gen::gen_npy_spec(&mut rng, max_axes, max_len, max_elems)),
             4..=6 => FileSpec::NpyWritten(gen::gen_spec(&mut rng, max_axes, max_len, max_elems, false)),
@@ -428,6 +515,9 @@ impl Prop for C16 {
                     return out;
                 }
                 out.count(&format!("control_accepted.{}", key_file_kind(file)), 1);
+                if img.len() >= 8192 {
+                    out.count("size.at_least_1024_values", 1);
+                }
                 let list = match damages {
                     Damages::All => all_damages(file, &img),
                     Damages::List(l) => l.clone(),
@@ -673,6 +763,10 @@ impl Prop for C16 {
             "fault.text_append_duplicate_value_line",
             "fault.text_append_concatenated_file",
             "fault.text_truncate",
+            "fault.extend/ascii_whitespace/odd_len",
+            "fault.npy_shape_edit_overflowing_product",
+            "fault.text_shape_edit_4",
+            "size.at_least_1024_values",
             "fault.l2.kill_mid_write",
             "control_accepted.npy",
         ]
